@@ -696,6 +696,8 @@ pub struct ConcCfg {
 	pub p_debug_in_body: u8,
 	/// chance of a `{:?}` of some target between two acquisitions
 	pub p_debug_step: u8,
+	/// chance of a `lockable::RawLock::poison` on a stand-alone leaf before an acquisition
+	pub p_kill_step: u8,
 	pub p_coll_target: u8,
 	pub max_sched: usize,
 	/// first thread always uses a retrying collection when one exists
@@ -725,6 +727,7 @@ impl Default for ConcCfg {
 			p_yield: 160,
 			p_debug_in_body: 0,
 			p_debug_step: 0,
+			p_kill_step: 0,
 			p_coll_target: 215,
 			max_sched: 48,
 			retry_first: false,
@@ -746,6 +749,9 @@ pub fn gen_conc(src: &mut Src<'_>, cfg: &ConcCfg) -> ConcCase {
 		let na = 1 + src.pick(cfg.max_acq);
 		let mut prog = Vec::new();
 		for a in 0..na {
+			if cfg.p_kill_step > 0 && !world.leaves.is_empty() && src.chance(cfg.p_kill_step) {
+				prog.push(Step::Kill { leaf: src.pick(world.leaves.len()) });
+			}
 			if src.chance(cfg.p_debug_step) {
 				prog.push(Step::Debug { target: gen_target(src, &world, cfg.p_coll_target), cap: None, payload: 0 });
 			}
